@@ -119,8 +119,9 @@ def judge(ctx, c):
         far = np.zeros(n, dtype=bool)
         for i in np.where(bad)[0]:
             col = Gs[:, i]
-            roots = [0.5 * (scan[j] + scan[j + 1]) for j in range(len(scan) - 1)
-                     if np.isfinite(col[j]) and np.isfinite(col[j + 1]) and col[j] * col[j + 1] < 0]
+            jf = [j for j in range(len(scan)) if np.isfinite(col[j])]  # (as in has_root: scan winds at which the
+            # balance is undefined are skipped, a sign change across such a gap counts)
+            roots = [0.5 * (scan[a_] + scan[b_]) for a_, b_ in zip(jf[:-1], jf[1:]) if col[a_] * col[b_] < 0]
             ratio = min((gv[i] / r_ for r_ in roots), key=lambda q: abs(np.log(q)) if q > 0 else np.inf) if roots else np.nan
             ok_guess = np.isfinite(ratio) and 0.2 <= ratio <= 5.0
             ctx.count("C11.nan_points:first_guess_within_x5_of_a_root" if ok_guess else "C11.nan_points:first_guess_far_from_every_root")
